@@ -202,7 +202,10 @@ def drive(seq, mode):
     try:
         for i, req in enumerate(seq):
             try:
-                sock.send(cloudpickle.dumps(to_wire(req, g)), flags=zmq.NOBLOCK if dead else 0)
+                if not dead and not sock.poll(300 if silent else 10000, zmq.POLLOUT):
+                    silent = True     # the peer is gone (a worker that died takes its end of the PAIR socket with it): nothing more can be sent
+                    continue
+                sock.send(cloudpickle.dumps(to_wire(req, g)), flags=zmq.NOBLOCK)
             except zmq.Again:
                 continue
             bearing = req["t"] in ("ok", "raise", "preset", "counter", "shutdown") and not dead
@@ -266,7 +269,9 @@ def drive_pipelined(seq):
     replies = []
     try:
         for req in seq:
-            sock.send(cloudpickle.dumps(to_wire(req, g)))
+            if not sock.poll(10000, zmq.POLLOUT):
+                break
+            sock.send(cloudpickle.dumps(to_wire(req, g)), flags=zmq.NOBLOCK)
         nbear = sum(1 for r in seq if r["t"] in ("ok", "raise", "preset", "counter", "shutdown"))
         tmo = 30000
         while sock.poll(tmo):
